@@ -5,6 +5,11 @@ V = os.path.dirname(os.path.dirname(os.path.abspath(__file__)))
 props = [json.loads(l) for l in open(os.path.join(V, "properties.jsonl"))]
 
 CLAIMS = {
+ "C09": dict(
+   text="Lean 4 theorems over the model of shell variables, the exported environment and the working directory (Model/EnvCd.lean: set_env / remove_env / child environment / export / unset / read with IFS / cd with the file system as a parameter): C09_cd_failed_noop (a failing cd - missing target, non-directory, `cd -` without a previous directory, too many arguments - changes nothing, for every state and every file system), C09_cd_minus_returns, C09_assign_not_exported, C09_assign_updates_exported, C09_prefixed_scoped, C09_export_seen_everywhere, C09_unset_removes_everywhere, C09_read_fields (split-at-every-blank-and-drop-empties = splitting at runs of blanks, for every line). Tied to /repo by histories of up to 30 operations run (a) in-process through execute::run_command_line with the real builtins, observing status, real cwd, previous_dir, expansion / environment / shell-variable value of six names after every line, and (b) as scripts by the plain binary on a generated tree with symlinks, observing `$?`, \"$NAME\" expansions, and a real child's environment and cwd delivered through a relative redirection; both compared with the Lean model and the reference semantics.",
+   note="Trusted: Lean kernel; the kernel's path resolution is a parameter of the theorems (any function from path text to missing / not-a-directory / canonical directory); the driver instantiates it with a finite tree whose resolution (`.`, `..`, empty components, absolute and relative symlinks, loops) is validated against the real kernel by the correspondence. Modelled, not proved about the Rust: quoting of the rendered lines (covered by C01 / C16), the HashMap order of several NAME=v on one line (independent names only).",
+   technique="Lean 4 proof (invariants and laws of the variable / environment / cwd state machine, file system as parameter) + model-implementation correspondence on operation histories, in-process and process-level",
+   design="DESIGN.md §6 C09"),
  "C18": dict(
    text="Lean 4 theorems over the model of the SQL text the shell builds: C18_literal_roundtrip (for EVERY text - quotes, percent signs, backslashes, semicolons, `--`, non-ASCII - the literal built by quote doubling is read back by SQLite's string-literal lexer as exactly that text, and the lexer stops exactly at the closing quote: injection-freedom of each spliced field), C18_insert_values (the VALUES part of add_raw's INSERT parses back to exactly (trimmed line, session id, dir:<dir>|) - all three fields have gone through that encoding since a fix: commit), C18_delete_exact, C18_add_appends. Tied to /repo by process-level sequences: add / list-with-pattern / delete, each operation run by its own cicada process on one shared database, in working directories named with quotes, percent signs, blanks, backslashes; the table is read back with an independent SQLite client (python sqlite3) and compared with the Lean model (rows, rowids, order, LIKE listing results) and the spec.",
    note="Trusted: Lean kernel; SQLite itself and rusqlite (only the string-literal lexing and LIKE are modelled; the model's rowid rule and LIKE are validated against SQLite by the differential); the prompt's record rule (leading blank, immediate repeat) is modelled (shouldRecord) but only exercised by pty sessions when built; durability is observed (separate processes), not proved.",
